@@ -2,6 +2,7 @@ package checks
 
 import (
 	"encoding/json"
+	"errors"
 	"fmt"
 	"io"
 	"math/rand"
@@ -362,6 +363,23 @@ func (f fiNone) Invoke([]interface{}) ([]reflect.Value, error) {
 	a, b := f()
 	return []reflect.Value{reflect.ValueOf(a), reflect.ValueOf(b)}, nil
 }
+
+// fiRefuser: a fast invoker whose Invoke reports a failure of its own.
+type fiRefuse struct{ mode int }
+type fiRefuser func() fiRefuse
+
+var errFiRefused = errors.New("refused by the wrapper")
+
+func (r fiRefuse) Invoke([]interface{}) ([]reflect.Value, error) {
+	switch r.mode {
+	case 0:
+		return nil, errFiRefused
+	case 1:
+		return []reflect.Value{reflect.ValueOf(403), reflect.ValueOf("partial")}, errFiRefused
+	}
+	return []reflect.Value{reflect.ValueOf(7)}, nil
+}
+func (f fiRefuser) Invoke(a []interface{}) ([]reflect.Value, error) { return f().Invoke(a) }
 
 type fiT1 func(cT1) (int, string)
 
@@ -836,6 +854,28 @@ func judgeInj(w *core.W, c *injCase) {
 		}
 		if !amb && fmt.Sprint(fo.tags) != fmt.Sprint(o.tags) {
 			w.Violate("inject", c, fmt.Sprintf("fast invoker received %v, plain function received %v", fo.tags, o.tags))
+			return
+		}
+	}
+	if c.Fast != "" {
+		// a user-written fast invoker that refuses (an error, with or without values next to it): what it returns is
+		// what Invoke returns
+		want := fiRefuse{mode: len(c.Regs) % 3}
+		wv, we := want.Invoke(nil)
+		var gv []reflect.Value
+		var ge error
+		var gp interface{}
+		func() {
+			defer func() { gp = recover() }()
+			gv, ge = nearest.Invoke(fiRefuser(func() fiRefuse { return want }))
+		}()
+		w.Count("invocations:fast-invoker-that-reports-an-error")
+		same := gp == nil && ge == we && len(gv) == len(wv)
+		for i := 0; same && i < len(wv); i++ {
+			same = gv[i].Interface() == wv[i].Interface()
+		}
+		if !same {
+			w.Violate("inject", c, fmt.Sprintf("a user-written fast invoker returned (%d values, error %v); Invoke handed back (%d values, error %v, panic %v)", len(wv), we, len(gv), ge, gp))
 			return
 		}
 	}
